@@ -1,0 +1,8 @@
+//go:build verif
+
+// Contracts for package templater, read by /verif/bin/gvc (contract-based deductive verification).
+// This file contains comments only; it is compiled only under the build tag "verif".
+package templater
+
+//@ func ReplaceGlobs
+//@   sweep                                                          [C16]
